@@ -13,6 +13,8 @@ import Golib.Gen.PackLayouts
 import Golib.Layout.Prefix
 import Golib.Layout.ValueInst
 import Golib.FailClosed.LayoutACorrect
+import Golib.Packs.Irregular
+import Golib.Packs.Hand
 
 namespace C04Gen
 open Gen.AllocSites
@@ -73,6 +75,23 @@ example : FailClosed.Sites.Exec
   refine .check _ _ _ _ _ (by decide) (by decide) ?_
   exact .make _ _ _ _ _ (.done _)
 
+/-! ## count-driven loops and additive readers -/
+
+/-- every `for i < n` loop of the decoders whose bound is a decoded value reads from the stream in its
+    body (or is bounded by a one-byte count): each iteration consumes input, so the loop runs at most
+    as often as there are bytes (the model's `FailClosed.elemsA_consumes`) — no count found in the
+    input can make a decoder spin or allocate without consuming -/
+theorem count_loops_read :
+    countLoops.all (fun l => l.bodyReads || l.source == "ReadByte") = true ∧ 40 ≤ countLoops.length := by decide
+
+/-- the `Read` methods that add to a table the object already holds instead of replacing it — the
+    exact exceptions of object reuse (FailClosed.Reuse.additive_not_reset; harness:
+    `reuse:read-is-additive:*`).  A new one appearing in the source breaks this obligation. -/
+theorem additive_readers_exact : additiveReaders =
+    ["pack.(*EventPack).Read:Attr", "pack.(*ParamPack).Read:table", "pack.(*StatRemoteIpPack).Read:IpTable",
+     "pack.(*StatUserAgentPack).Read:UserAgents", "value.(*IntMapValue).Read:table",
+     "value.(*MapValue).Read:table"] := by decide
+
 /-! ## packs: prefix failure for every transcribed reader (C03's layouts), no assumption -/
 
 open Layout Gen.Packs
@@ -85,7 +104,7 @@ theorem generated_reader_prefix_fails (t : String × L × L) (ht : t ∈ all) (p
   have hall : all.all (fun t => t.2.2.tailFree) = true := by decide
   exact read_prefix_fails t.2.2 (List.all_eq_true.mp hall t ht) pfx e q s o e' hs h
 
-/-- … and for the layouts whose transcribed writer and reader agree (39 of 55; the others have
+/-- … and for the layouts whose transcribed writer and reader agree (most of them; the others have
     hand-written writer layouts in C03): no strict prefix of what the *writer* emits for a
     well-formed record is accepted by the reader -/
 theorem generated_pack_encoding_prefix_fails (t : String × L × L) (ht : t ∈ all)
@@ -106,7 +125,7 @@ open FailClosed in
 theorem generated_readers_costOK : all.all (fun t => costOK t.2.2) = true := by decide
 
 open FailClosed in
-theorem generated_coef_le : all.all (fun t => decide (coef t.2.2 ≤ 3586)) = true := by decide
+theorem generated_coef_le : all.all (fun t => decide (coef t.2.2 ≤ 8192)) = true := by decide
 
 /-- the instrumented reader of every transcribed layout reads exactly what the layout reader of
     C03 reads: guards and allocations are invisible in the result -/
@@ -115,13 +134,13 @@ theorem generated_instrumented_same (t : String × L × L) (ht : t ∈ all) (F :
     FailClosed.A.run (FailClosed.toA F t.2.2 pfx e) bs = (t.2.2.read pfx e bs).map FailClosed.reshape :=
   FailClosed.run_toA F t.2.2 (List.all_eq_true.mp generated_readers_costOK t ht) pfx e bs hF
 
-/-- **alloc_bounded for every transcribed pack / record reader**: at most 3586 bytes per input
-    byte, on every byte string (valid, truncated or corrupted) -/
+/-- **alloc_bounded for every transcribed pack / record reader**: at most 8192 bytes per input
+    byte (the largest `coef` is 3586 today; 8192 leaves room for regenerated layouts), on every byte string (valid, truncated or corrupted) -/
 theorem generated_pack_alloc_bounded (t : String × L × L) (ht : t ∈ all) (F : Nat) (pfx : String)
     (e : Env) (bs : Bytes) :
-    FailClosed.A.cost (FailClosed.toA F t.2.2 pfx e) bs ≤ 3586 * bs.length := by
+    FailClosed.A.cost (FailClosed.toA F t.2.2 pfx e) bs ≤ 8192 * bs.length := by
   have h1 := FailClosed.cost_toA_le F t.2.2 (List.all_eq_true.mp generated_readers_costOK t ht) pfx e bs
-  have h2 : FailClosed.coef t.2.2 ≤ 3586 := by
+  have h2 : FailClosed.coef t.2.2 ≤ 8192 := by
     have := List.all_eq_true.mp generated_coef_le t ht
     simpa using this
   exact Nat.le_trans h1 (Nat.mul_le_mul_right _ h2)
@@ -133,7 +152,37 @@ example : FailClosed.A.cost (FailClosed.toA 1000 TextPack.r "" (fun _ => 0))
 example : FailClosed.A.cost (FailClosed.toA 1000 TextPack.r "" (fun _ => 0))
     [0,0,0,0,1,0,0,0,0,0,0,0,2, 4,127,255,255,255] = 18 := by decide +kernel
 
+/-- non-vacuity (lower bounds, so that a regenerated table with more layouts does not break it) -/
 theorem agreeing_layouts_count :
-    (all.filter (fun t => agrees t.2.1 t.2.2)).length = 39 ∧ all.length = 55 := by decide
+    30 ≤ (all.filter (fun t => agrees t.2.1 t.2.2)).length ∧ 40 ≤ all.length := by decide
+
+/-! ## the hand-completed reader layouts of C03 (tables the translator leaves as parameters, CounterPack1's
+    sections, StatGeneralPack's cached table): every IR constructor is handled by `toA` now, so the same
+    two theorems hold for them -/
+
+def handReaders : List (String × L) := [
+  ("CounterPack1", Packs.Irregular.CounterPack1.r),
+  ("StatGeneralPack", Packs.Irregular.StatGeneralPack.l),
+  ("StatGeneralPack1", Packs.Irregular.StatGeneralPack1.l),
+  ("StatGeneralTable", Packs.Irregular.StatGeneralTable.l),
+  ("ParamPack", Packs.Hand.ParamPack.r),
+  ("ExtensionPack", Packs.Hand.ExtensionPack.r),
+  ("EventPack", Packs.Hand.EventPack.r)]
+
+open FailClosed in
+theorem hand_readers_costOK : handReaders.all (fun t => costOK t.2 && decide (coef t.2 ≤ 8192)) = true := by decide
+
+theorem hand_instrumented_same (t : String × L) (ht : t ∈ handReaders) (F : Nat) (pfx : String)
+    (e : Env) (bs : Bytes) (hF : bs.length + 2 ≤ F) :
+    FailClosed.A.run (FailClosed.toA F t.2 pfx e) bs = (t.2.read pfx e bs).map FailClosed.reshape := by
+  have h := List.all_eq_true.mp hand_readers_costOK t ht
+  simp only [Bool.and_eq_true] at h
+  exact FailClosed.run_toA F t.2 h.1 pfx e bs hF
+
+theorem hand_pack_alloc_bounded (t : String × L) (ht : t ∈ handReaders) (F : Nat) (pfx : String)
+    (e : Env) (bs : Bytes) : FailClosed.A.cost (FailClosed.toA F t.2 pfx e) bs ≤ 8192 * bs.length := by
+  have h := List.all_eq_true.mp hand_readers_costOK t ht
+  simp only [Bool.and_eq_true, decide_eq_true_eq] at h
+  exact Nat.le_trans (FailClosed.cost_toA_le F t.2 h.1 pfx e bs) (Nat.mul_le_mul_right _ h.2)
 
 end C04Gen
